@@ -86,9 +86,12 @@ func (p *Cursor) ReadDigits() (string, error) {
 }
 
 func (p *Cursor) IsNext(s string) bool {
-	for i, exp := range s {
+	start := p.pos
+	for _, exp := range s {
 		if p.current() != exp {
-			p.Unread(i)
+			// back to where the comparison began. (Counting the compared runes is not enough:
+			// next() stays on the last rune of the source, so fewer steps may have been made.)
+			p.pos = start
 			return false
 		}
 		_ = p.next()
